@@ -345,15 +345,18 @@ impl<'a, L> Engine<'a, L> {
                 if self.options.rdf_direction() == Some(RdfDirection::I18nDatatype)
                     && dt_str.starts_with(NS_18N)
                 {
-                    let mut iter = dt_str[NS_18N.len()..].splitn(2, '_');
-                    let tag = iter.next().unwrap();
-                    let dir = iter.next();
-                    push_entry(&mut obj, "@value", txt.into());
-                    if !tag.is_empty() {
-                        push_entry(&mut obj, "@language", tag.into());
-                    }
-                    if let Some(dir) = dir {
-                        if !dir.is_empty() {
+                    // only a well-formed i18n datatype (optional language tag, '_', ltr|rtl)
+                    // can be folded into a value object that is valid JSON-LD
+                    // and gives the same datatype back; anything else stays a typed literal
+                    if let Some((tag, dir)) = dt_str[NS_18N.len()..].split_once('_') {
+                        if matches!(dir, "ltr" | "rtl")
+                            && (tag.is_empty()
+                                || sophia_api::term::LanguageTag::new(tag).is_ok())
+                        {
+                            push_entry(&mut obj, "@value", txt.into());
+                            if !tag.is_empty() {
+                                push_entry(&mut obj, "@language", tag.into());
+                            }
                             push_entry(&mut obj, "@direction", dir.into());
                         }
                     }
